@@ -43,6 +43,11 @@ CLAIMED = {
         "technique": "tracked-aggregate / pairing rules on AST blocks with guard matching; exact linear arithmetic (Fractions) on quota expressions; dispatch structure check",
         "note": _COMMON_NOTE + " The rules identify the bookkeeping variables by their roles in the functions named in the property's anchors; a rename of those locals is reported as ANALYSIS-ERROR/violation of shape, which is the price of deciding operators and pairings exactly.",
     },
+    "C08": {
+        "text": "Static rules over piecewise_estimator.py: co-indexing of X/y/sample_weight handed to each local model by def-use signatures (also across the class-borrowing block that extends a copy of the mask); structure of the task dispatch (one clone per mapping entry, task i trains estimators[i] on bucket i, fallback clone on all rows, predict dispatch table and fallback method name); gather/scatter pairing of per-bucket predictions; for every Parallel(...)(delayed(f)(...)) site, arguments that are the same object for all tasks are never written by the task according to interprocedural write summaries (generator draws count as writes) — the clause that quantifies over thread schedules; fit-side and predict-side bucket keys are built by equal expressions with unknown -> -1. Tests run one schedule and a few data sets; these rules cover all schedules and all rows.",
+        "technique": "def-use signature co-indexing; structural dispatch checks; write-effect summaries applied to loop-invariant arguments of delayed() tasks; sibling agreement of bucket-key expressions",
+        "note": _COMMON_NOTE + " Declined: probabilities summing to one, labels in classes_ (depends on label values), bucket semantics of arbitrary binners.",
+    },
 }
 
 NOT_APPLICABLE = {}
